@@ -3,7 +3,7 @@
 //@ include prelude/std_extra.rs
 use std::str::FromStr;
 use std::fmt::{Formatter, Result as FmtResult};
-//@ include prelude/chrono_date.rs
+//@ include prelude/chrono.rs
 //@ include prelude/fmt.rs
 //@ include spec/keys.rs
 //@ include contracts/crypto.rs
